@@ -602,7 +602,7 @@ def part_dom(ctx):
             try:
                 signal.alarm(30)
                 compile_shapes()
-                MS.run_random(ctx.rng("c14d-random-cfg"), 60 if ctx.tier == "quick" else 600)
+                MS.run_random(ctx.rng("c14d-random-cfg"), 40 if ctx.tier == "quick" else 600)
             except Hang:
                 hangs.append("hand-written CFG shapes (MakeSSA + analyses)")
             except Exception as e:  # noqa
@@ -637,7 +637,7 @@ def part_dom(ctx):
     ssas = pick(list(obs.ssa.values()), 70 if quick else 900, rnd, "ninsts")
     dfgs = pick(list(obs.dfg.values()), 30 if quick else 500, rnd, "ninsts")
     mcases = sorted(mobs.cases.values(), key=lambda c: (-(c.ninsts if c.problem is None else 10**9), c.name, c.key()))
-    mcap = 150 if quick else 1500
+    mcap = 90 if quick else 1500
     if len(mcases) > mcap:
         mcases = mcases[:mcap // 3] + rnd.sample(mcases[mcap // 3:], mcap - mcap // 3)
     if mobs.errors:
